@@ -21,6 +21,49 @@ br_verif_fail(const char *what, const char *vm, long a, long b)
 	fflush(stderr);
 	abort();
 }
+
+#if defined(__SANITIZE_ADDRESS__)
+#define BR_VERIF_ASAN   1
+#elif defined(__has_feature)
+#if __has_feature(address_sanitizer)
+#define BR_VERIF_ASAN   1
+#endif
+#endif
+
+#ifdef BR_VERIF_ASAN
+void __asan_poison_memory_region(void const volatile *addr, size_t size);
+void __asan_unpoison_memory_region(void const volatile *addr, size_t size);
+#endif
+
+void
+br_verif_guard(void *p, size_t len, int poison)
+{
+#ifdef BR_VERIF_ASAN
+	if (poison) {
+		/*
+		 * Contexts that live on the stack are left alone: nobody
+		 * would remove the poison when their frame is left, and
+		 * later frames would trip over it. (The stack grows down:
+		 * such an object sits a bounded distance above this frame.)
+		 */
+		volatile unsigned char here;
+		uintptr_t d;
+
+		here = 0;
+		d = (uintptr_t)p - (uintptr_t)&here;
+		if (d < ((uintptr_t)64 << 20)) {
+			return;
+		}
+		__asan_poison_memory_region(p, len);
+	} else {
+		__asan_unpoison_memory_region(p, len);
+	}
+#else
+	(void)p;
+	(void)len;
+	(void)poison;
+#endif
+}
 #else
 typedef int br_verif_unused_;
 #endif
